@@ -776,6 +776,26 @@ class FnItem:
         self.sig_src = src.text[src.toks[s].start:src.toks[o].start]
         self.body_src = src.text[src.toks[o].start:src.toks[c].end]
         self.body_first_line = src.line_of(src.toks[o].start)
+        if spec.get("closure_body"):
+            # R26 closure slice: the body of the block closure that follows the anchor tokens inside this function (e.g. the closure
+            # handed to thread::spawn) becomes a free function of its captured variables; the parameter list is given by the
+            # sidecar, the body text is the closure's block, token for token
+            cb = spec["closure_body"]
+            at = [t.text for t in tokenize(cb["after"])]
+            found = []
+            for i in range(o, c - len(at)):
+                if [t.text for t in src.toks[i:i + len(at)]] == at and src.toks[i + len(at)].text == "{":
+                    found.append(i + len(at))
+            if len(found) != 1:
+                raise Undecided("%s::%s: closure anchor %r found %d times" % (rel, spec["name"], cb["after"], len(found)))
+            bo = found[0]
+            bc = src.match[bo]
+            self.sig_src = cb["sig"] + " "
+            self.body_src = src.text[src.toks[bo].start:src.toks[bc].end]
+            self.body_first_line = src.line_of(src.toks[bo].start)
+            self.first_line = self.body_first_line
+            self.impl_header = None
+            self.closure_sliced = True
         self.name = spec["name"]
         self.rule_hits = {}
 
@@ -867,6 +887,8 @@ class FnItem:
             self.imprecise.append("%d closure(s) without a spliced contract" % (n_closures - len(sp.get("closures") or {})))
         if getattr(self, "default_instantiated", False):
             hits["R25"] = 1
+        if getattr(self, "closure_sliced", False):
+            hits["R26"] = 1
         hits = {k: v for k, v in hits.items() if v}
         self.rule_hits = hits
         expected = sp.get("rules", {})
@@ -874,7 +896,7 @@ class FnItem:
             expected = hits
         # R1 / R2 only remove or guard logging, R3/R3b/R6/R7/R14/R20 are the language's own desugarings: their site
         # counts are recorded, not pinned.  Pinned: rewrites that abstract something (R4 profile, R9 counters, clock ...)
-        free = ("R1", "R2", "R3", "R3b", "R6", "R7", "R14", "R20", "R21", "R22", "R25") + tuple(sp.get("unpinned", ()))
+        free = ("R1", "R2", "R3", "R3b", "R6", "R7", "R14", "R20", "R21", "R22", "R25", "R26") + tuple(sp.get("unpinned", ()))
         strict = lambda d: {k: v for k, v in d.items() if k not in free}
         if strict(hits) != strict(expected):
             raise Undecided("%s::%s: rewrite sites changed: expected %r, found %r" % (self.rel, self.name, expected, hits))
